@@ -42,7 +42,7 @@ func init() {
 					"(a) linearizability cases: 2-4 goroutines x 4-8 ops of Has/Get/Put/Remove/Len/Size/Clear, call/return stamped from one atomic counter at the client boundary, unique value id per Put, checked with porcupine against the reference LRU (no partitioning: eviction/Len/Size/Clear couple the keys), then a final Clear and the exactly-once accounting of the eviction log; " +
 					"(b) stress cases: 2-8 goroutines x 150-400 ops with goroutine-local results only (no harness synchronisation that could hide a race), an observer goroutine probing Size() and the accounting hook, run under the race detector and plain. (c) large-cache cases: a cache of 257..4097 unit entries is cleared while 2-4 observers call Len/Size (and optionally one Put races): every observation must be explained by Clear being one atomic step, and every entry must be reported evicted exactly once. (d) high-rate invariant cases without recording: a key that is only ever replaced must always be reported present; after a goroutine's own Clear its private key must be absent. GOMAXPROCS in {1,2,4,16} by block; random yields before calls and inside the proxy/size function/eviction callback. " +
 					"distinct = hash(per-client op lists, set of overlapping op pairs) = distinct interleavings observed; non-trivial = at least one pair of conflicting operations (same key, or one of them Len/Size/Clear/evicting Put) overlapped in real time",
-				Required:     []string{"lin_histories", "lin_overlapping_conflicting_pairs", "lin_histories_with_eviction_and_overlap", "stress_rounds", "stress_ops", "store_proxy_calls", "observer_probes", "evictions_logged", "porcupine_ok", "large_clear_cases", "large_clear_observations", "invariant_cases", "invariant_ops", "histories_on_plain_cache"},
+				Required:     []string{"lin_histories", "lin_overlapping_conflicting_pairs", "lin_histories_with_eviction_and_overlap", "stress_rounds", "stress_ops", "store_proxy_calls", "observer_probes", "evictions_logged", "porcupine_ok", "large_clear_cases", "large_clear_observations", "invariant_cases", "invariant_ops", "histories_on_plain_cache", "histories_with_sizes_beyond_2_to_the_31"},
 				Assumptions:  []string{"sequential specification = reference LRU of C08; key space <= 5 so that the heap never has more than 5 entries and known finding F1/F2 cannot influence results", "the race detector only sees accesses that actually overlapped without an intervening happens-before edge", "porcupine v1.3.0 is trusted as the linearizability decision procedure (60 s timeout => inconclusive)"},
 				CoverPkgs:    []string{"github.com/creachadair/mds/cache"},
 				CoverAnchors: []string{"cache/cache.go"},
@@ -111,6 +111,9 @@ type c09rig struct {
 	evlog  []lruEntry
 	nevict atomic.Int64
 	record bool
+	// shift: with a size function, sizes and the limit are multiplied by
+	// 2^shift, so that totals pass 2^31, 2^32 and 2^40
+	shift uint
 }
 
 func newC09rig(limit int64, unit bool, salt uint64, jitter, record bool) *c09rig {
@@ -122,15 +125,22 @@ func newC09rig(limit int64, unit bool, salt uint64, jitter, record bool) *c09rig
 // the client-side monitors (linearizability, Size <= limit, the accounting
 // hook at quiescence) apply then.
 func newC09rigOpt(limit int64, unit bool, salt uint64, jitter, record, bare bool) *c09rig {
-	rig := &c09rig{limit: limit, unit: unit, record: record}
+	return newC09rigFull(limit, unit, salt, jitter, record, bare, 0)
+}
+
+func newC09rigFull(limit int64, unit bool, salt uint64, jitter, record, bare bool, shift uint) *c09rig {
+	if unit {
+		shift = 0
+	}
+	rig := &c09rig{limit: limit, unit: unit, record: record, shift: shift}
 	jit := &c09jitter{salt: salt, on: jitter}
 	conf := cache.LRU[int, CVal]()
 	rig.proxy = &c09proxy{inner: cache.VerifStoreOf(conf), jit: jit}
 	if bare {
 		if !unit {
-			conf = conf.WithSize(func(v CVal) int64 { jit.maybe(); return v.Sz })
+			conf = conf.WithSize(func(v CVal) int64 { jit.maybe(); return v.Sz << shift })
 		}
-		rig.ch = cache.New(limit, conf)
+		rig.ch = cache.New(limit<<shift, conf)
 		return rig
 	}
 	conf = conf.WithStore(rig.proxy).OnEvict(func(k int, v CVal) {
@@ -143,9 +153,9 @@ func newC09rigOpt(limit int64, unit bool, salt uint64, jitter, record, bare bool
 		jit.maybe()
 	})
 	if !unit {
-		conf = conf.WithSize(func(v CVal) int64 { jit.maybe(); return v.Sz })
+		conf = conf.WithSize(func(v CVal) int64 { jit.maybe(); return v.Sz << shift })
 	}
-	rig.ch = cache.New(limit, conf)
+	rig.ch = cache.New(limit<<shift, conf)
 	return rig
 }
 
@@ -253,7 +263,14 @@ func c09apply(rig *c09rig, in c09in) c09out {
 	case 'L':
 		return c09out{N: int64(rig.ch.Len())}
 	case 'S':
-		return c09out{N: rig.ch.Size()}
+		n := rig.ch.Size()
+		if rig.shift > 0 {
+			if n&(1<<rig.shift-1) != 0 || n < 0 {
+				return c09out{N: -1 - n&(1<<62-1)} // not a multiple of the unit: no model state matches
+			}
+			n >>= rig.shift
+		}
+		return c09out{N: n}
 	case 'C':
 		rig.ch.Clear()
 	}
@@ -322,7 +339,11 @@ func c09linCase(c *fw.Ctx, r *rand.Rand) {
 	}
 	salt := r.Uint64()
 	bare := salt%4 == 3 // a quarter of the histories: no store proxy, no eviction callback
-	rig := newC09rigOpt(limit, unit, salt, true, true, bare)
+	shift := []uint{0, 0, 0, 29, 31, 32, 33, 40}[salt>>8%8]
+	rig := newC09rigFull(limit, unit, salt, true, true, bare, shift)
+	if !unit && shift > 0 {
+		c.Add("histories_with_sizes_beyond_2_to_the_31", 1)
+	}
 	if bare {
 		c.Add("histories_on_plain_cache", 1)
 	}
@@ -378,7 +399,7 @@ func c09linCase(c *fw.Ctx, r *rand.Rand) {
 		rig.mu.Lock()
 		ev := fmt.Sprint(rig.evlog)
 		rig.mu.Unlock()
-		return map[string]any{"limit": limit, "unit_sizes": unit, "keys": keys, "plain_cache_without_proxy_and_callback": bare, "gomaxprocs": runtime.GOMAXPROCS(0), "history_by_call_time": lines, "eviction_log": ev}
+		return map[string]any{"limit": limit, "unit_sizes": unit, "keys": keys, "plain_cache_without_proxy_and_callback": bare, "sizes_times_2_to_the": shift, "gomaxprocs": runtime.GOMAXPROCS(0), "history_by_call_time": lines, "eviction_log": ev}
 	}
 
 	// (3) store serialisation
